@@ -398,7 +398,7 @@ func genKv(r *rand.Rand, tier string) kvInput {
 		case x == 3 || x == 8:
 			in.Ops = append(in.Ops, Step{Kind: "expire", Clock: next()})
 		case x >= 11 && x <= 14:
-			st := Step{Kind: "query", Coll: pick(r, live), Handle: r.Intn(in.Handles), Q: pick(r, []string{"QIds", "QBodies", "QCount", "QIdEq", "QBodyA1", "QXattrRev", "QSync", "QLast2", "QSyncFirst", "QBodyAEq", "QCross"}), Clock: next()}
+			st := Step{Kind: "query", Coll: pick(r, live), Handle: r.Intn(in.Handles), Q: pick(r, []string{"QIds", "QBodies", "QCount", "QIdEq", "QBodyA1", "QXattrRev", "QSync", "QLast2", "QSyncFirst", "QBodyAEq", "QCross", "QUser", "QUser"}), Clock: next()}
 			switch st.Q {
 			case "QIdEq":
 				st.Arg = pick(r, kvKeys)
